@@ -13,6 +13,8 @@ NOT_DECIDED = "that accumulated float stamps reach T at the ideal tick for decim
 
 
 def check(ctx):
+    from .c12 import state_shares_named_after_framer
+    state_shares_named_after_framer(ctx, "T9-statepath")
     _framing.clocks(ctx)
     ctx.rule("T6-timeout", "buildTimeout/buildRepeat build a direct need on state.elapsed/recurred with '>=' "
              "against float(|v|)/int(|v|), transition to 'next', added as preact")
